@@ -33,6 +33,7 @@ func runC08(c *Ctx) {
 	c08Blob(c)
 	c08Clones(c)
 	c08CallSites(c)
+	c.MinCount("oci/selection-complete", 1, "completeness rule of the exact selection")
 	c.MinCount("", 14, "selection obligations")
 }
 
@@ -505,6 +506,7 @@ func c08OCI(c *Ctx) {
 	okGuards := true
 	detail := ""
 	exactArg := ""
+	var exactS *c08Stmt
 	for _, p := range headerPhis(loop.Header) {
 		// A candidate is remembered as a statement pointer, or as the position of the statement in the list (an integer
 		// variable that is not a loop counter and with which a slice is indexed later on): assigning position e
@@ -561,6 +563,9 @@ func c08OCI(c *Ctx) {
 					case !strings.HasPrefix(arg, "const:") && strings.Contains(arg, ref):
 						kind = "exact"
 						exactArg = arg
+						if alt.S != nil && alt.SFn == LF {
+							exactS = alt.S
+						}
 					}
 				}
 				if len(args) != 1 {
@@ -589,6 +594,8 @@ func c08OCI(c *Ctx) {
 	c.Check(okGuards && nExact == 1 && nWild == 1 && exactPhi != nil && wildPhi != nil && exactPhi != wildPhi, "oci/selection-predicate",
 		"a statement becomes the exact candidate only under slices.Contains(statement.RegistryScopes, repository path) and the wildcard candidate only under slices.Contains(statement.RegistryScopes, \"*\") (generic ==: no prefix, substring, case folding)", w.InstrPos(blockTerm(loop.Header)),
 		fmt.Sprintf("exact=%d wildcard=%d %s", nExact, nWild, detail))
+	// completeness of the exact selection (extra_c08.go): a statement that lists the repository path is never passed over
+	c08SelectionComplete(c, scan, exactPhi, exactS, exactArg, fmt.Sprintf("const:%q", wc))
 	// the value tested for exact membership is the repository path
 	if exactArg != "" {
 		okVal := false
